@@ -32,6 +32,18 @@ def ptr_list(declarator):
     return [(p.ptr, bool(p.const), bool(p.volatile)) for p in declarator.pointer]
 
 
+def same_extents(got, written):
+    """The printer puts a signed operand in parentheses: extents that are not the written text must have the written value."""
+    from .c11 import evaluate
+
+    if len(got) != len(written):
+        return False
+    try:
+        return all(re.fullmatch(r"[-+*/() \d]+", str(w)) and evaluate(g, {}) == evaluate(str(w), {}) for g, w in zip(got, written))
+    except Exception:  # noqa
+        return False
+
+
 def compare(node, d, path="decl"):
     """Compare the recorded AST with the derivation. Returns None or a message."""
     from shroud import todict
@@ -78,7 +90,7 @@ def compare(node, d, path="decl"):
         if dec.func is not None:
             return "%s: spurious function-pointer declarator" % path
     arr = [todict.print_node(a) for a in node.array]
-    if [a.replace(" ", "") for a in arr] != [str(a).replace(" ", "") for a in d.arrays]:
+    if [a.replace(" ", "") for a in arr] != [str(a).replace(" ", "") for a in d.arrays] and not same_extents(arr, d.arrays):
         return "%s: array extents %r, written %r" % (path, arr, d.arrays)
     if d.params is None:
         if node.params is not None:
@@ -112,6 +124,10 @@ def compare(node, d, path="decl"):
 def strip_lines(x, in_attrs=False):
     """todict output without source line numbers; integer attribute values as text (+rank=1 and +rank(1) agree)."""
     if isinstance(x, dict):
+        if set(x) == {"node"}:
+            # a parenthesised group of an expression: grouping is carried by the shape of the tree, the parentheses the printer
+            # adds around a signed operand are the same expression
+            return strip_lines(x["node"], in_attrs)
         return {k: strip_lines(v, in_attrs or k == "attrs") for k, v in x.items() if k not in ("linenumber", "__line__")}
     if in_attrs and isinstance(x, int) and not isinstance(x, bool):
         return str(x)
@@ -327,6 +343,162 @@ def c_language_shard(args):
             out.append(rec)
     return out
 
+# ---- unqualified and qualified name lookup in nested scopes
+# scope -> names it declares (kind); the same names are declared again in inner scopes, which is the point
+SCOPES = {
+    "": {"Color": "enum", "Shade": "enum", "Tag": "class", "Index": "typedef int", "Board": "class", "geo": "namespace"},
+    "geo": {"Color": "enum", "Tag": "class", "Grid": "class", "Index": "typedef long", "deep": "namespace"},
+    "geo::Grid": {"Color": "enum", "Mode": "enum"},
+    "geo::deep": {"Shade": "enum", "Grid": "class"},
+    "geo::deep::Grid": {"Shade": "enum"},
+    "Board": {"Shade": "enum", "Color": "enum"},
+}
+LOOKUP_NAMES = ["Color", "Shade", "Tag", "Index", "Grid", "Mode", "Board", "geo::Color", "geo::Shade", "geo::Grid::Color", "Grid::Color", "Grid::Shade", "Grid::Mode",
+                "deep::Shade", "deep::Grid", "geo::deep::Grid", "geo::deep::Grid::Shade", "Board::Shade", "Board::Color", "Board::Mode", "geo::Tag", "geo::Index", "deep::Color",
+                "geo::Board", "Tag::Color"]
+
+
+def cxx_lookup(scope, name):
+    """The C++ rule: an unqualified name is searched from the innermost scope outwards; the first component of a qualified
+    name likewise, every later component only in the scope named so far.  Returns the qualified name or None."""
+    parts = name.split("::")
+    cur = scope
+    found = None
+    while True:
+        if parts[0] in SCOPES.get(cur, {}):
+            found = (cur + "::" if cur else "") + parts[0]
+            break
+        if not cur:
+            return None
+        cur = cur.rpartition("::")[0]
+    for p in parts[1:]:
+        if p not in SCOPES.get(found, {}):
+            return None
+        found = found + "::" + p
+    kind = SCOPES[found.rpartition("::")[0]][found.rpartition("::")[2]]
+    return None if kind == "namespace" else found
+
+
+def scope_header():
+    def body(scope, ind):
+        out = []
+        for n, kind in SCOPES.get(scope, {}).items():
+            q = (scope + "::" if scope else "") + n
+            if kind == "enum":
+                out.append("%senum %s { %s_%d };" % (ind, n, n.upper(), len(q)))
+            elif kind.startswith("typedef"):
+                out.append("%s%s %s;" % (ind, kind, n))
+            elif kind == "namespace":
+                out += ["%snamespace %s {" % (ind, n)] + body(q, ind + "  ") + ["%s}" % ind]
+            else:
+                out += ["%sclass %s { public:" % (ind, n)] + body(q, ind + "  ") + ["%s  static void vt_probe_fn();" % ind, "%s};" % ind]
+        return out
+    return "\n".join(body("", "")) + "\n"
+
+
+def scope_probe(scope, lines):
+    """Text evaluated in the given scope after everything is declared: a reopened namespace, or the body of a member function."""
+    if scope == "":
+        return "\n".join(lines) + "\n"
+    parent, _, name = scope.rpartition("::")
+    if SCOPES[parent][name] == "namespace":
+        return "".join("namespace %s { " % p for p in scope.split("::")) + "\n" + "\n".join(lines) + "\n" + "}" * len(scope.split("::")) + "\n"
+    return "void %s::vt_probe_fn() {\n%s\n}\n" % (scope, "\n".join(lines))
+
+
+def scope_shard(args):
+    """Every name of LOOKUP_NAMES used in every scope: the type Shroud records against the C++ lookup rule; the rule itself is
+    checked against g++ (one translation unit of static_asserts, and one per name that must not resolve)."""
+    workdir = args[0]
+    from shroud import ast, declast, typemap
+
+    typemap.initialize()
+    lib = ast.LibraryNode(library="lib")
+    nodes = {"": lib}
+    out = []
+    for scope in SCOPES:
+        for n, kind in SCOPES[scope].items():
+            q = (scope + "::" if scope else "") + n
+            if kind == "enum":
+                nodes[scope].add_declaration("enum %s { %s_%d }" % (n, n.upper(), len(q)))
+            elif kind.startswith("typedef"):
+                try:
+                    nodes[scope].add_declaration("%s %s" % (kind, n))
+                except Exception as e:  # noqa
+                    out.append({"text": "%s %s  [in scope %s]" % (kind, n, scope or "::"), "kind": "lookup", "must": "must", "status": "internal", "cxx": None, "c": None,
+                                "err": "(1) %s: %s; declares the type %s" % (type(e).__name__, str(e).strip().split("\n")[-1][:80], q)})
+            elif kind == "namespace":
+                nodes[q] = nodes[scope].add_namespace(n)
+            else:
+                nodes[q] = nodes[scope].add_class(n)
+    probes = {}
+    negatives = []
+    for scope in SCOPES:
+        for name in LOOKUP_NAMES:
+            want = cxx_lookup(scope, name)
+            for shape in ("void f(%s a)", "%s *f()", "void f(const %s &a, int n)"):
+                text = shape % name
+                rec = {"text": "%s  [in scope %s]" % (text, scope or "::"), "kind": "lookup", "must": "must", "err": None, "status": "ok", "cxx": None, "c": None}
+                try:
+                    node = declast.check_decl(text, namespace=nodes[scope])
+                    got = (node.params[0] if shape.startswith("void") else node).typemap.name
+                    if want is None:
+                        rec["err"] = "(1) %s does not name a type in scope %s, accepted as %s" % (name, scope or "::", got)
+                    elif got != want:
+                        rec["err"] = "(1) resolved to type %r, the C++ lookup rule gives %r" % (got, want)
+                except (RuntimeError, NotImplementedError, SystemExit) as e:
+                    rec["status"] = "rejected"
+                    if want is not None:
+                        rec["err"] = "(1) rejected (%s), the C++ lookup rule gives %r" % (str(e).strip().split("\n")[-1][:80], want)
+                except Exception as e:  # noqa
+                    rec["status"] = "internal"
+                    rec["err"] = "internal exception %s: %s" % (type(e).__name__, e)
+                out.append(rec)
+            if "::" not in name:
+                # after a type specifier the same identifier is the name being declared, whatever it names in the scope
+                for shape, tn in (("void f(int %s)", "int"), ("void f(const double *%s, int n)", "double"), ("long %s", "long"), ("unsigned int %s[3]", "unsigned_int")):
+                    text = shape % name
+                    rec = {"text": "%s  [in scope %s]" % (text, scope or "::"), "kind": "lookup", "must": "must", "err": None, "status": "ok", "cxx": None, "c": None}
+                    try:
+                        node = declast.check_decl(text, namespace=nodes[scope])
+                        sub = node.params[0] if shape.startswith("void") else node
+                        if sub.typemap.name != tn or sub.name != name:
+                            rec["err"] = "(1) recorded as type %r name %r; declares %r of type %s" % (sub.typemap.name, sub.name, name, tn)
+                    except Exception as e:  # noqa
+                        rec["status"] = "rejected"
+                        rec["err"] = "(1) %s: %s; declares %r of type %s" % (type(e).__name__, str(e).strip().split("\n")[-1][:80], name, tn)
+                    out.append(rec)
+            if want is not None:
+                probes.setdefault(scope, []).append((name, want))
+            else:
+                negatives.append((scope, name))
+    # the rule against the compiler
+    os.makedirs(workdir, exist_ok=True)
+    hdr = "#include <type_traits>\n" + scope_header()
+    k = 0
+    src = hdr
+    for scope, lst in probes.items():
+        lines = []
+        for name, want in lst:
+            lines.append('static_assert(std::is_same<%s, ::%s>::value, "%s in %s");' % (name, want, name, scope or "::"))
+            k += 1
+        src += scope_probe(scope, lines)
+    with open(os.path.join(workdir, "lookup.cpp"), "w") as fp:
+        fp.write(src)
+    r = subprocess.run(["g++", "-std=c++11", "-fsyntax-only", "lookup.cpp"], cwd=workdir, capture_output=True, text=True)
+    if r.returncode != 0:
+        raise RuntimeError("the C++ lookup model of the check disagrees with g++: %s" % r.stderr[:600])
+    out.append({"text": "lookup rule against g++ (%d names)" % k, "kind": "lookup", "must": "must", "err": None, "status": "ok", "cxx": None, "c": None})
+    for i, (scope, name) in enumerate(negatives):
+        with open(os.path.join(workdir, "neg%d.cpp" % i), "w") as fp:
+            fp.write(hdr + scope_probe(scope, ["typedef %s vt_probe;" % name]))
+        r = subprocess.run(["g++", "-std=c++11", "-fsyntax-only", "neg%d.cpp" % i], cwd=workdir, capture_output=True, text=True)
+        if r.returncode == 0:
+            raise RuntimeError("the C++ lookup model of the check disagrees with g++: %s resolves in scope %s" % (name, scope))
+    import shutil
+    shutil.rmtree(workdir, ignore_errors=True)
+    return out, k, len(negatives)
+
 
 def run(ctx):
     level = 2 if ctx.tier == "quick" else 3
@@ -337,6 +509,11 @@ def run(ctx):
         recs.extend(part)
     recs.extend(isolate.call_in_child(template_shard, ((),), timeout=120).value)
     recs.extend(isolate.call_in_child(c_language_shard, ((),), timeout=120).value)
+    lres = isolate.call_in_child(scope_shard, ((ctx.subdir("lookup"),),), timeout=300)
+    if lres.status != "ok":
+        raise RuntimeError("scope lookup shard: %s %s" % (lres.exc, lres.msg))
+    recs.extend(lres.value[0])
+    ctx.part("scope_lookup", scopes=len(SCOPES), names=len(LOOKUP_NAMES), declarations=len(lres.value[0]), gxx_resolving=lres.value[1], gxx_not_resolving=lres.value[2])
     ctx.count(states=len(recs), transitions=len(recs), validated=len(recs))
     kinds = {}
     for i, r in enumerate(recs):
